@@ -8,6 +8,7 @@ import Librfn.Lemmas.ConsoleRound
 import Librfn.Lemmas.ConsoleSplit
 import Librfn.Lemmas.ConsoleDeliver
 import Librfn.Lemmas.ConsoleSorted
+import Librfn.Lemmas.ConsoleE2E
 /-!
 # C15 — console line editing, tokenising and dispatch are exact and memory-safe
 
@@ -197,7 +198,7 @@ theorem dispatch_exact (cmds : List Cmd) (hinj : NamesInj (cmds ++ [cmdEcho, cmd
     exact hinj.2 c (List.mem_append.mpr ((hmem c).mp hc)) c' (List.mem_append.mpr ((hmem c').mp hc')) he
   have hfl := findLoop_mkTable (cstr s.mem o) cmdUnknown ht.sentinel (tableCap - named'.length - 1) named' ht.names
   have hshape : registerAll initTable cmds = named'.map some ++ some cmdUnknown :: List.replicate (tableCap - named'.length - 1) none := ht.shape
-  have hfc : findCommand (registerAll initTable cmds) s = { s with cmd := some (findSpec (cstr s.mem o) cmdUnknown named') } := by
+  have hfc : findCommand (registerAll initTable cmds) s = { s with cmd := some (findSpec (cstr s.mem o) cmdUnknown named'), ran := s.ran ++ [(some (findSpec (cstr s.mem o) cmdUnknown named'), argStrings s)] } := by
     unfold findCommand
     simp only [h0, hshape, hfl]
   rw [hfc]
@@ -765,7 +766,7 @@ open Librfn.Lemmas.ConsoleSorted in
 theorem dispatch_first_registered (cmds : List Cmd) (hn : ∀ c ∈ cmds, c.name ≠ none) (s : St) (o : Nat)
     (h0 : s.argv.getD 0 none = some o) :
     findCommand (registerLog initTable cmds).1 s =
-      { s with cmd := some (findSpec (cstr s.mem o) cmdUnknown ([cmdEcho, cmdHelp] ++ cmds.take 29)) } := by
+      { s with cmd := some (findSpec (cstr s.mem o) cmdUnknown ([cmdEcho, cmdHelp] ++ cmds.take 29)), ran := s.ran ++ [(some (findSpec (cstr s.mem o) cmdUnknown ([cmdEcho, cmdHelp] ++ cmds.take 29)), argStrings s)] } := by
   obtain ⟨named, ht, _, _, h4, h5⟩ := registerLog_inv cmdUnknown cmds initTable [cmdEcho, cmdHelp] initTable_ok init_sorted hn
   have hfl := findLoop_mkTable (cstr s.mem o) cmdUnknown ht.sentinel (tableCap - named.length - 1) named ht.names
   have hshape : (registerLog initTable cmds).1 = named.map some ++ some cmdUnknown :: List.replicate (tableCap - named.length - 1) none := ht.shape
@@ -829,5 +830,197 @@ theorem process_never_drops (ops : List Op) (hok : ∀ op ∈ ops, OpOk op) (d :
   unfold ringPut
   rw [if_neg (by omega)]
   simp
+
+/-! ## end to end: lines in, commands with their arguments out -/
+
+open Librfn.Lemmas.ConsoleE2E Librfn.Lemmas.ConsoleEdit Librfn.Lemmas.ConsoleDeliver Librfn.Spec.Console in
+/-- the common core: from a reachable idle state `s`, an operation that moves the logs in lockstep,
+    keeps the refinement and consumes exactly `input` starts exactly the commands of the lines that
+    `input` completes, and leaves the line being edited in the buffer -/
+theorem e2e_core (tab : Table) (s s' : St) (input : List Nat) (hls : LS tab s s') (h : Abs s) (h' : Abs s')
+    (he : s'.eaten = s.eaten ++ input) (hidle : s'.fpt ≠ 2) :
+    s'.ran = s.ran ++ (feedAll ⟨[], (feedAll ⟨[], []⟩ s.eaten).cur⟩ input).done.map (dispatchSpec tab) ∧
+    s'.lines = s.lines ++ (feedAll ⟨[], (feedAll ⟨[], []⟩ s.eaten).cur⟩ input).done ∧
+    AtPrompt s' (feedAll ⟨[], (feedAll ⟨[], []⟩ s.eaten).cur⟩ input).cur := by
+  obtain ⟨r1, r2⟩ := ran_of_ls tab s s' input hls h h' he
+  refine ⟨r1, r2, ?_⟩
+  have hat := h'.idle hidle
+  have hL : L s' = feedAll (L s) input := by unfold L feedAll; rw [he, List.foldl_append]
+  rw [hL, (feedAll_done input (L s).done (L s).cur).2] at hat
+  exact hat
+
+open Librfn.Lemmas.ConsoleE2E Librfn.Lemmas.ConsoleEdit Librfn.Lemmas.ConsoleDeliver Librfn.Spec.Console in
+/-- **console_end_to_end** (the headline sentence of C15, for `console_process`): take any reachable
+    state in which the console is not inside a command (any history of registrations and deliveries
+    before, NUL-free), and any NUL-free stream `d :: cs` given to `console_process` character by
+    character.  With `cur` the line being edited before and `input` = what was still in the ring
+    followed by the stream:
+
+    * the commands the console **starts** during the stream (`ran`: the command found by
+      `find_command` together with the strings `argv[0..argc-1]` it is handed), in order, are exactly
+      `dispatchSpec tab line` for the lines `line` that the edit-stack specification completes on
+      `input` — one start per completed line, nothing else, nothing twice;
+    * every started command has also **finished**: all loops terminate (`stuck` untouched) and the
+      console is back at its prompt (`fpt = 1`) with the ring empty — so each was run exactly once;
+    * the texts handed to the tokeniser are those lines, and the buffer holds the still incomplete line;
+    * memory safety along the way: cursor ≤ 79, every single-byte store at an offset < 79, nothing left
+      the scratch union.
+
+    `dispatchSpec tab line = (find_command's answer for the first token, lineTokens line)`, where
+    `lineTokens line` is `do_tokenize` applied to the line alone; what those tokens are is the subject
+    of `args_wellformed`, `tokenize_roundtrip`, `unquoted_simple_split`, `fourth_takes_rest` (see
+    `lineTokens_eq`), and what `find_command` answers of `dispatch_first_registered`
+    (see `dispatchSpec_registered`). -/
+theorem console_end_to_end (ops : List Op) (hok : ∀ op ∈ ops, OpOk op) (hnz : ∀ op ∈ ops, OpNZ op)
+    (d : Nat) (cs : List Nat) (hin : ∀ b ∈ d :: cs, b ≠ 0) :
+    let w := runOps boot ops
+    w.s.fpt ≠ 2 → w.s.ring.length + 1 < ringLen →
+    let s' := (d :: cs).foldl (process w.tab) w.s
+    let cur := (feedAll ⟨[], []⟩ w.s.eaten).cur
+    let input := w.s.ring ++ d :: cs
+    s'.ran = w.s.ran ++ (feedAll ⟨[], cur⟩ input).done.map (dispatchSpec w.tab) ∧
+    s'.lines = w.s.lines ++ (feedAll ⟨[], cur⟩ input).done ∧
+    AtPrompt s' (feedAll ⟨[], cur⟩ input).cur ∧
+    s'.ring = [] ∧ s'.fpt = 1 ∧ s'.stuck = w.s.stuck ∧
+    s'.bufp ≤ 79 ∧ s'.fault = false ∧ (∀ o ∈ s'.wlog, o < 79) ∧ s'.mem.length = scratchSize := by
+  intro w hf hroom s' cur input
+  obtain ⟨named, ht, h⟩ := runOps_dinv ops boot hok _ _ initTable_ok (init_dinv _)
+  have habs := runOps_abs ops boot hnz init_abs
+  have hls := processes_ls _ w.tab named cmdUnknown ht rfl (d :: cs) w.s habs h.inv hin
+  obtain ⟨a1, a2, a3, a4, a5, _⟩ := process_deliver _ w.tab named cmdUnknown w.s d ht rfl h hf
+  obtain ⟨b1, b2, b3, b4, b5⟩ := processes_deliver _ w.tab named cmdUnknown ht rfl cs (process w.tab w.s d) a1 (by rw [a3]; decide) a2
+  have b6 := processes_fpt1 _ w.tab named cmdUnknown ht rfl cs (process w.tab w.s d) a1 a3 a2
+  have habs' : Abs s' := by
+    show Abs ((d :: cs).foldl (process w.tab) w.s)
+    have : ∀ (l : List Nat) (s : St), Abs s → (∀ b ∈ l, b ≠ 0) → Abs (l.foldl (process w.tab) s) := by
+      intro l
+      induction l with
+      | nil => intro s hs _; exact hs
+      | cons c r ih =>
+        intro s hs hz
+        simp only [List.foldl_cons]
+        exact ih _ (process_abs w.tab s c hs (hz c (List.mem_cons_self ..))) (fun b hb => hz b (List.mem_cons_of_mem _ hb))
+    exact this _ _ habs hin
+  have he : s'.eaten = w.s.eaten ++ input := by
+    show ((d :: cs).foldl (process w.tab) w.s).eaten = _
+    simp only [List.foldl_cons]
+    rw [b4, a4]
+    unfold ringPut
+    rw [if_neg (by omega)]
+    simp [input]
+  have hfpt : s'.fpt = 1 := by show ((d :: cs).foldl (process w.tab) w.s).fpt = 1; simp only [List.foldl_cons]; exact b6
+  obtain ⟨c1, c2, c3⟩ := e2e_core w.tab w.s s' input hls habs habs' he (by rw [hfpt]; decide)
+  have hinv : Librfn.Lemmas.ConsoleInv.Inv named.length s' := by
+    show Librfn.Lemmas.ConsoleInv.Inv named.length ((d :: cs).foldl (process w.tab) w.s)
+    simp only [List.foldl_cons]; exact b1.inv
+  refine ⟨c1, c2, c3, ?_, hfpt, ?_, hinv.bufp, hinv.nofault, hinv.wlog, hinv.memlen⟩
+  · show ((d :: cs).foldl (process w.tab) w.s).ring = []; simp only [List.foldl_cons]; exact b2
+  · show ((d :: cs).foldl (process w.tab) w.s).stuck = _; simp only [List.foldl_cons]; rw [b5, a5]
+
+open Librfn.Lemmas.ConsoleE2E Librfn.Lemmas.ConsoleEdit Librfn.Lemmas.ConsoleDeliver Librfn.Spec.Console in
+/-- **console_end_to_end_putchar**: the same for a burst of `console_putchar` calls while at most 15
+    characters are outstanding, followed by a scheduler run -/
+theorem console_end_to_end_putchar (ops : List Op) (hok : ∀ op ∈ ops, OpOk op) (hnz : ∀ op ∈ ops, OpNZ op)
+    (cs : List Nat) (hin : ∀ b ∈ cs, b ≠ 0) :
+    let w := runOps boot ops
+    w.s.fpt ≠ 2 → cs ≠ [] → w.s.ring.length + cs.length ≤ 15 →
+    let s' := sched w.tab (cs.foldl putchar w.s)
+    let cur := (feedAll ⟨[], []⟩ w.s.eaten).cur
+    let input := w.s.ring ++ cs
+    s'.ran = w.s.ran ++ (feedAll ⟨[], cur⟩ input).done.map (dispatchSpec w.tab) ∧
+    s'.lines = w.s.lines ++ (feedAll ⟨[], cur⟩ input).done ∧
+    AtPrompt s' (feedAll ⟨[], cur⟩ input).cur ∧
+    s'.ring = [] ∧ s'.fpt = 1 ∧ s'.stuck = w.s.stuck ∧
+    s'.bufp ≤ 79 ∧ s'.fault = false ∧ (∀ o ∈ s'.wlog, o < 79) := by
+  intro w hf hne hroom s' cur input
+  obtain ⟨named, ht, h⟩ := runOps_dinv ops boot hok _ _ initTable_ok (init_dinv _)
+  have habs := runOps_abs ops boot hnz init_abs
+  have hrl := ringLen_eq
+  obtain ⟨p1, p2, p3, p4, p5⟩ := putchars_room cs w.s (by omega)
+  have hlen : cs.length ≠ 0 := by
+    cases cs with
+    | nil => exact absurd rfl hne
+    | cons c r => simp
+  obtain ⟨d1, a2, a3, a4, a5, _, _⟩ := sched_deliver _ w.tab named cmdUnknown (cs.foldl putchar w.s) ht rfl
+    (putchars_dinv _ cs w.s h) (by rw [p3]; exact hf) (p5 hlen)
+  have habs1 := putchars_abs cs w.s habs hin
+  have hinv1 := putchars_inv _ cs w.s h.inv
+  obtain ⟨q1, q2⟩ := putchars_frame cs w.s
+  have hls : LS w.tab w.s s' := (LS.refl' w.tab w.s _ q1 q2).trans (schedLoop_ls _ w.tab named cmdUnknown ht rfl _ _ habs1 hinv1)
+  have habs' : Abs s' := schedLoop_abs w.tab _ _ habs1
+  have he : s'.eaten = w.s.eaten ++ input := by
+    show (sched w.tab (cs.foldl putchar w.s)).eaten = _
+    rw [a4, p2, p1]
+  obtain ⟨c1, c2, c3⟩ := e2e_core w.tab w.s s' input hls habs habs' he (by show (sched _ _).fpt ≠ 2; rw [a3]; decide)
+  exact ⟨c1, c2, c3, a2, a3, by show (sched _ _).stuck = _; rw [a5, p4], d1.inv.bufp, d1.inv.nofault, d1.inv.wlog⟩
+
+open Librfn.Lemmas.ConsoleE2E Librfn.Lemmas.ConsoleEdit Librfn.Lemmas.ConsoleDeliver Librfn.Spec.Console in
+/-- **console_end_to_end_eval**: the same for `console_eval` of a NUL-free string (any number of lines,
+    length below 65536) driven to completion from a console with its ring drained; it completes -/
+theorem console_end_to_end_eval (ops : List Op) (hok : ∀ op ∈ ops, OpOk op) (hnz : ∀ op ∈ ops, OpNZ op)
+    (str : List Nat) (hin : ∀ b ∈ str, b ≠ 0) (hlen : str.length < 65536) :
+    let w := runOps boot ops
+    w.s.fpt ≠ 2 → w.s.ring = [] →
+    let r := eval w.tab str w.s
+    let cur := (feedAll ⟨[], []⟩ w.s.eaten).cur
+    (∃ k, r.2 = some k) ∧
+    r.1.ran = w.s.ran ++ (feedAll ⟨[], cur⟩ str).done.map (dispatchSpec w.tab) ∧
+    r.1.lines = w.s.lines ++ (feedAll ⟨[], cur⟩ str).done ∧
+    AtPrompt r.1 (feedAll ⟨[], cur⟩ str).cur ∧
+    r.1.ring = [] ∧ r.1.fpt = 1 ∧ r.1.stuck = w.s.stuck ∧
+    r.1.bufp ≤ 79 ∧ r.1.fault = false ∧ (∀ o ∈ r.1.wlog, o < 79) := by
+  intro w hf hring r cur
+  obtain ⟨named, ht, h⟩ := runOps_dinv ops boot hok _ _ initTable_ok (init_dinv _)
+  have habs := runOps_abs ops boot hnz init_abs
+  obtain ⟨k, a1, a2, a3, a4, a5, a6⟩ := eval_deliver _ w.tab named cmdUnknown str w.s ht rfl hin hlen h hf hring
+  have hls : LS w.tab w.s r.1 := evalDrive_ls _ w.tab named cmdUnknown str ht rfl _ _ _ _ habs h.inv
+  have habs' : Abs r.1 := evalDrive_abs w.tab str _ _ _ _ habs
+  obtain ⟨c1, c2, c3⟩ := e2e_core w.tab w.s r.1 str hls habs habs' a5 (by show (eval _ _ _).1.fpt ≠ 2; rw [a4]; decide)
+  exact ⟨⟨k, a1⟩, c1, c2, c3, a3, a4, a6, a2.inv.bufp, a2.inv.nofault, a2.inv.wlog⟩
+
+/-! ### what `dispatchSpec` is -/
+
+theorem tokensOf_eq (t : Tok) (len : Nat) : tokensOf t len = Librfn.Lemmas.ConsoleE2E.tokStrings t len := rfl
+
+open Librfn.Lemmas.ConsoleE2E in
+/-- the arguments of a line that fits the buffer are the tokens all the tokeniser theorems speak of
+    (`tokenize_roundtrip`, `unquoted_simple_split`, `args_wellformed`, `fourth_takes_rest` with the
+    buffer `line ++ 0 :: zeros`) -/
+theorem lineTokens_eq (line : List Byte) (h : line.length < scratchSize) :
+    lineTokens line = tokensOf (tokenizeMem (line ++ 0 :: List.replicate (scratchSize - line.length - 1) 0)
+      [none, none, none, none] line.length) line.length := by
+  unfold lineTokens lineMem
+  have : List.replicate (scratchSize - line.length) (0 : Byte) = 0 :: List.replicate (scratchSize - line.length - 1) 0 := by
+    have e : scratchSize - line.length = (scratchSize - line.length - 1) + 1 := by omega
+    conv => lhs; rw [e, List.replicate_succ]
+  rw [this]
+  rfl
+
+open Librfn.Lemmas.ConsoleE2E Librfn.Lemmas.ConsoleSorted in
+/-- on the table produced by any sequence of registrations, the command of a line is the first
+    registered command (after `echo` and `help`) named exactly like the line's first token, else the
+    sentinel (`unknown`: prints "Unknown/bad command" unless the token is empty) -/
+theorem dispatchSpec_registered (cmds : List Cmd) (hn : ∀ c ∈ cmds, c.name ≠ none) (line : List Byte) :
+    (dispatchSpec (registerLog initTable cmds).1 line).1 =
+      some (findSpec ((lineTokens line).headD []) cmdUnknown ([cmdEcho, cmdHelp] ++ cmds.take 29)) := by
+  obtain ⟨named, ht, _, _, h4, h5⟩ := registerLog_inv cmdUnknown cmds initTable [cmdEcho, cmdHelp] initTable_ok init_sorted hn
+  have hfl := findLoop_mkTable ((lineTokens line).headD []) cmdUnknown ht.sentinel (tableCap - named.length - 1) named ht.names
+  have hshape : (registerLog initTable cmds).1 = named.map some ++ some cmdUnknown :: List.replicate (tableCap - named.length - 1) none := ht.shape
+  unfold dispatchSpec
+  rw [hshape, hfl, h4, h5]
+  rfl
+
+open Librfn.Lemmas.ConsoleE2E in
+/-- concrete: `x  "a b"⌫c` + newline typed into a console with `x` registered starts `x` once with the
+    arguments `x`, `a bc`… — here the whole pipeline on the model, and an empty line starts `unknown`
+    with the single empty argument -/
+example : dispatchSpec initTable [] = (some cmdUnknown, [[]]) ∧
+    dispatchSpec initTable [101, 99, 104, 111, 32, 34, 97, 32, 98, 34] = (some cmdEcho, [[101, 99, 104, 111], [97, 32, 98]]) := by
+  decide
+
+set_option maxRecDepth 100000 in
+/-- non-vacuity of the end-to-end statement on a real run: `e c h o ⌫ o ␠ ' a ' ⏎ ⏎` -/
+example : ((([101, 99, 104, 111, 8, 111, 32, 39, 97, 39, 10, 10] : List Byte).foldl (process initTable) init).ran)
+    = [(some cmdEcho, [[101, 99, 104, 111], [97]]), (some cmdUnknown, [[]])] := by decide
 
 end Librfn.C15
